@@ -168,6 +168,13 @@ def make_class(deco: Any) -> Any:
 
         wrapped = deco(plain)
 
+        # value-equal, hash-equal instances are still different receivers
+        def __eq__(self, other: object) -> bool:
+            return isinstance(other, K)
+
+        def __hash__(self) -> int:
+            return 4711
+
     return K
 
 
@@ -241,6 +248,15 @@ async def one_call(C: Ctx, case: dict[str, Any]) -> None:
         ctl_ref: dict[str, Any] = {"raise": hand}
         K = make_class(decorate) if is_method else None
         inst = K("inst") if K is not None else None
+        if K is not None and not deco.startswith("traced"):
+            # warm up on an equal-but-distinct receiver first: whatever the decorator remembers per instance must not leak over
+            other = K("other-receiver")
+            try:
+                warm = other.wrapped({"raise": None}, "warm-up")
+                if asyncio.iscoroutine(warm) or isinstance(warm, asyncio.Future):
+                    await warm
+            except BaseException:  # noqa: BLE001
+                pass
         plain = inst.plain if inst is not None else FUNCS[fname]
         try:
             ref: tuple[str, Any] = ("value", plain(ctl_ref, *args, **kwargs))
